@@ -1256,7 +1256,8 @@ def _emitter_samples(ctx):
     declared apart, shorter before longer, and with a defaulted parameter; and two overloads of a free function."""
     from .rules_matlab import SampleObj, sample_wrapper
     root = SampleObj(__kind__="Namespace", name="", parent="")
-    nsn = SampleObj(__kind__="Namespace", name="ns", parent=root, full_namespaces=lambda: ["", "ns"])
+    nsn = SampleObj(__kind__="Namespace", name="ns", parent=root, full_namespaces=lambda: ["", "ns"], content=[])
+    root["content"] = [nsn]
 
     def ty(name, ns=()):
         return SampleObj(__kind__="Type", typename=SampleObj(__kind__="Typename", name=name, namespaces=list(ns), instantiations=[]),
@@ -1268,15 +1269,19 @@ def _emitter_samples(ctx):
 
     def rt(name):
         return SampleObj(__kind__="ReturnType", type1=ty(name), type2="", is_void=lambda: name == "void")
-    cls = SampleObj(__kind__="InstantiatedClass", name="K", parent=nsn, namespaces=lambda: ["", "ns"], properties=[])
+    cls = SampleObj(__kind__="InstantiatedClass", name="K", parent=nsn, namespaces=lambda: ["", "ns"], properties=[], to_cpp=lambda: "ns::K",
+                    is_virtual=False, parent_class="", template="", instantiations=[], enums=[], ctors=[], operators=[])
 
     def decl(kind, name, specs, ret="double", parent=cls):
-        m = SampleObj(__kind__=kind, name=name, args=mk_args(specs), return_type=rt(ret), parent=parent, template="", is_const="")
+        # members of an instantiated class are Instantiated* nodes, which derive from the parser's node of that kind
+        m = SampleObj(__kind__="Instantiated" + kind, __bases__=[kind], name=name, args=mk_args(specs), return_type=rt(ret), parent=parent, template="", is_const="",
+                      instantiations=[], to_cpp=lambda: name)
         m["original"] = m
         return m
     D = ("x", "double", (), None)
     statics = [decl("StaticMethod", "make", [D]), decl("StaticMethod", "zero", []),
-               decl("StaticMethod", "make", [D, ("s", "double", (), None), ("t", "K", ("ns",), "ns::K()")]), decl("StaticMethod", "make", [])]
+               decl("StaticMethod", "make", [D, ("scale", "double", (), None), ("s", "K", ("ns",), "ns::K( 1,  2 )")]), decl("StaticMethod", "make", [])]
+    # (`s` is left out at arity 2 and its name occurs inside the supplied `scale`: names are compared whole)
     meths = [decl("Method", "at", [("i", "size_t", (), None)]), decl("Method", "size", [], ret="size_t"),
              decl("Method", "at", [("i", "size_t", (), None), ("j", "size_t", (), None), ("c", "double", (), "0.0")]), decl("Method", "at", [])]
     funcs = [decl("GlobalFunction", "scale", [D], parent=nsn), decl("GlobalFunction", "scale", [D, ("k", "K", ("ns",), None), ("w", "double", (), "1.0")], parent=nsn)]
@@ -1358,3 +1363,109 @@ def rule_call_sites_by_evaluation(ctx, rep: Report, rid="I10"):
         rep.add(rid, f"{which}:each branch passes the id registered for its own overload", not probs and bool(seen_ids),
                 f"{probs[:3]}: the `case` that the branch reaches runs the routine of another overload (argument count, unwrapping and call belong to "
                 f"that one), or of none", f"{ci.mod.rel}:{fn.lineno}")
+
+
+def _balanced_args(text: str, start: int) -> Optional[List[str]]:
+    """The top-level comma-separated arguments of the call whose `(` is at text[start]."""
+    depth, cur, out = 0, "", []
+    for ch in text[start:]:
+        if ch in "([{<" and not (ch == "<" and depth == 0 and False):
+            depth += 1
+            if depth > 1:
+                cur += ch
+        elif ch in ")]}>":
+            depth -= 1
+            if depth == 0:
+                if cur.strip() or out:
+                    out.append(cur.strip())
+                return out
+            cur += ch
+        elif ch == "," and depth == 1:
+            out.append(cur.strip())
+            cur = ""
+        else:
+            cur += ch
+    return None
+
+
+def rule_routines_by_evaluation(ctx, rep: Report, rid="I11"):
+    """The C++ routine generated for an id belongs to the overload the id was registered for: it is named with that id, checks
+    for as many arguments as that overload takes (`nargin-1` behind a receiver), unwraps the k-th supplied parameter from the
+    k-th input (one further for a method), and calls the declared entity with the supplied parameters in order followed by
+    the original text of every omitted default.  Decided by running the .m emitters on sample declarations and then
+    `generate_collector_function` for every id the run registered (the analyser's own interpreter), and reading the routine."""
+    from .rules_matlab import _PathEval, _Raised, mini_exec, program_classes
+    ci, prog = mw(ctx)
+    methods = _all_methods(prog, ci)
+    classes = program_classes(prog, ["ArgumentList", "Argument", "MatlabWrapper", "Typename", "Type", "ReturnType"])
+    me, cls, statics, meths, funcs = _emitter_samples(ctx)
+    gc = prog.method("MatlabWrapper", "generate_collector_function")
+    loc = f"{ci.mod.rel}:{gc.lineno}"
+    try:
+        gm = prog.method("MatlabWrapper", "_group_methods")
+        groups = mini_exec(gm, dict(zip(func_params(gm), [me, list(funcs)])), budget=60000, methods=methods, classes=classes)
+        if not (isinstance(groups, list) and groups and all(isinstance(g_, list) for g_ in groups)):
+            raise _PathEval.Unknown("grouping of the sample functions")
+        for which, argv in [("wrap_static_methods", [me, "ns", cls, [False]]), ("wrap_class_methods", [me, "ns", cls, list(meths), [False]])] + \
+                [("wrap_global_function", [me, g_]) for g_ in groups]:
+            fn = prog.method("MatlabWrapper", which)
+            ps = func_params(fn)
+            if len(ps) != len(argv):
+                raise _PathEval.Unknown(f"signature of {which}")
+            mini_exec(fn, dict(zip(ps, argv)), budget=120000, methods=methods, classes=classes)
+        wm = me.get("wrapper_map")
+        if not isinstance(wm, dict) or len(wm) < 8 or len(func_params(gc)) != 2:
+            raise _PathEval.Unknown("id map of the sample run")
+        routines = {}
+        for fid in sorted(wm):
+            routines[fid] = mini_exec(gc, {func_params(gc)[0]: me, func_params(gc)[1]: fid}, budget=200000, methods=methods, classes=classes)
+    except (_PathEval.Unknown, _Raised, TypeError, KeyError, IndexError, AttributeError) as ex:
+        rep.add(rid, "routines evaluated on sample declarations", True, f"not evaluable ({ex}); M3/M4/M7 decide by structure", loc, nontrivial=False)
+        return
+    rep.units["routines_evaluated"] = len(routines)
+    probs = []
+    for fid, text in sorted(routines.items()):
+        ent = wm[fid]
+        objs = [x for x in ent if isinstance(x, dict) and "args" in x and "name" in x]
+        if not objs or not isinstance(text, str):
+            probs.append(f"id {fid}: no routine text / no overload registered")
+            continue
+        ov = objs[-1]
+        kind = ov.get("__kind__", "")
+        is_method = kind.endswith("Method") and "Static" not in kind
+        supplied = [a["name"] for a in ov["args"]["args_list"]]
+        full = ov["args"].get("backup") or ov["args"]
+        full_list = full["args_list"]
+        label = f"{ov['name']}({', '.join(supplied)})"
+        head = re.search(r"void\s+(\w+)\s*\(", text)
+        if not head or not head.group(1).endswith(f"_{fid}"):
+            probs.append(f"id {fid} [{label}]: the routine is called {head.group(1) if head else '?'}")
+        chk = re.search(r'checkArguments\("[^"]*"\s*,\s*nargout\s*,\s*nargin(\s*-\s*1)?\s*,\s*(\d+)\)', text)
+        if not chk:
+            probs.append(f"id {fid} [{label}]: no checkArguments")
+        else:
+            if int(chk.group(2)) != len(supplied):
+                probs.append(f"id {fid} [{label}]: checks for {chk.group(2)} argument(s), the overload takes {len(supplied)}")
+            if bool(chk.group(1)) != is_method:
+                probs.append(f"id {fid} [{label}]: argument count taken {'behind' if chk.group(1) else 'without'} a receiver")
+        got_in = {nm: int(k) for nm, k in re.findall(r"(\w+)\s*=\s*unwrap\w*\s*<[^;]*?>\s*\(\s*in\[(\d+)\]", text) if nm != "obj"}
+        for k, nm in enumerate(supplied):
+            want_k = k + (1 if is_method else 0)
+            if got_in.get(nm) != want_k:
+                probs.append(f"id {fid} [{label}]: parameter {nm} is read from in[{got_in.get(nm)}], it is passed as in[{want_k}]")
+        callee_pat = (r"obj\s*->\s*" if is_method else r"[\w:]*::") + re.escape(ov["name"]) + r"\s*\("
+        cm = re.search(callee_pat, text)
+        if not cm:
+            probs.append(f"id {fid} [{label}]: no call of the declared {'method on the receiver' if is_method else 'entity'}")
+            continue
+        args = _balanced_args(text, cm.end() - 1)
+        want_args = [(a["name"] if a["name"] in supplied else a["default"]) for a in full_list]
+        norm = [x.lstrip("*").strip() if x.lstrip("*").strip() in supplied else x for x in (args or [])]
+        if args is None or norm != want_args:
+            probs.append(f"id {fid} [{label}]: calls with ({', '.join(args or [])}), declared order with the omitted defaults is ({', '.join(str(w) for w in want_args)})")
+        void = ov["return_type"]["is_void"]() if callable(ov["return_type"].get("is_void")) else False
+        if not void and "out[0]" not in text:
+            probs.append(f"id {fid} [{label}]: the result is not handed back")
+    rep.add(rid, "routines:each one checks, unwraps and calls for the overload its id is registered for", not probs,
+            f"{probs[:3]}: the gateway reaches the right case but the routine reads other inputs or calls the entity with other arguments than the overload declares",
+            loc)
